@@ -82,9 +82,11 @@ func c14Build(w *kernel.Worker, c *c14Case, rep *kernel.Report) (*c14Model, erro
 		}
 	}
 	for i, age := range c.Metrics {
-		name := fmt.Sprintf("c14m%d", i)
+		// one metric name, so that all metrics segments belong to one shard and share its tags tree (a tags tree is
+		// rotated once a day, not with every segment); the series are told apart by a tag
+		name := fmt.Sprintf(`c14m{k="s%d"}`, i)
 		tsSec := c.ts(age, 0) / 1000
-		js := fmt.Sprintf(`{"metric":"%s","tags":{"k":"v"},"timestamp":%d,"value":%d}`, name, tsSec, i+1)
+		js := fmt.Sprintf(`{"metric":"c14m","tags":{"k":"s%d"},"timestamp":%d,"value":%d}`, i, tsSec, i+1)
 		var r map[string]interface{}
 		if err := w.Call("mputl", map[string]interface{}{"json": js, "org": 0}, &r); err != nil {
 			return nil, err
@@ -206,6 +208,42 @@ func c14Check(w *kernel.Worker, c *c14Case, m *c14Model, stage string, strict bo
 	}
 	if len(mdirs) != len(m.mSurvive) {
 		return fail("metrics-segment-dirs", fmt.Sprintf("%d metrics segment directories hold block files on disk (%v), %d metrics segments survive", len(mdirs), sortedKeys(mdirs), len(m.mSurvive))), nil
+	}
+	// every tags-tree directory a listed metrics segment refers to still holds its files
+	var mm struct {
+		Content string `json:"content"`
+		Missing bool   `json:"missing"`
+	}
+	if err := w.Call("readfile", map[string]interface{}{"suffix": "/metricmeta.json", "contains": ""}, &mm); err != nil {
+		return nil, err
+	}
+	listed := 0
+	for _, line := range strings.Split(mm.Content, "\n") {
+		var e struct {
+			TTreeDir    string `json:"tTreeDir"`
+			MSegmentDir string `json:"mSegmentDir"`
+		}
+		if strings.TrimSpace(line) == "" || json.Unmarshal([]byte(line), &e) != nil || e.MSegmentDir == "" {
+			continue
+		}
+		listed++
+		// paths are relative to the working directory of the server (data/...)
+		tt := strings.TrimPrefix(e.TTreeDir, "./")
+		if i := strings.Index(tt, "data/"); i > 0 {
+			tt = tt[i:]
+		}
+		has := false
+		for p := range files {
+			if strings.HasPrefix(p, tt) {
+				has = true
+			}
+		}
+		if tt != "" && !has {
+			return fail("tags-tree-of-survivor-removed", fmt.Sprintf("metricmeta.json still lists metrics segment %s, whose tags tree directory %s holds no file any more", e.MSegmentDir, e.TTreeDir)), nil
+		}
+	}
+	if listed != len(m.mSurvive) {
+		return fail("metricmeta-entries", fmt.Sprintf("metricmeta.json lists %d metrics segments, %d survive", listed, len(m.mSurvive))), nil
 	}
 	var sm struct {
 		Content string `json:"content"`
